@@ -127,7 +127,7 @@ NAME_POOLS = {
     "plain": ["a", "b", "c", "d", "y", "z", "w", "n1", "n2", "n3", "q0", "o_1", "sig"],
     "synthetic": ["not_a", "and_a_b", "or_a_b", "xor_a_b", "xnor_a_b", "mux_o_a_b_c", "not_b", "and_b_c", "g_0", "g_1", "tie0", "tie1", "tie_0", "tie_1", "a_dup", "not_a_0", "and_a_b_0", "tie_0_0", "xor_a_b_0",
                   "a", "b", "c", "y", "z", "w"],
-    "escaped": ["\\a[0]", "\\b.c", "\\n$1", "a", "b", "y", "\\y[1]", "z", "w", "c"],
+    "escaped": ["\\a[0]", "\\b.c", "\\n$1", "a", "b", "y", "\\y[1]", "z", "w", "c", "\\y,x", "x", "\\n(1)", "\\q;r"],
 }
 
 
@@ -154,6 +154,8 @@ def rand_program(rng, style="mixed", pool="plain", n_in=None, n_items=None, bb=0
             # library cells are sometimes called like a primitive in another case (BUF, NAND ...): identifiers are case-sensitive
             t = ({"type": rng.choice(["ff", "ff", "ff", "NAND", "Xor"]), "ins": ["CK", "D"], "outs": ["Q", "QN"]} if rng.random() < 0.5
                  else {"type": rng.choice(["cell", "cell", "cell", "BUF", "Not"]), "ins": ["A"], "outs": ["Y"]})
+            if bbtypes and rng.random() < 0.7:
+                t = rng.choice(bbtypes)             # another instance of a cell type that is already there
             if t not in bbtypes:
                 bbtypes.append(t)
             conns = []
@@ -258,6 +260,16 @@ def verilog_text(prog, rng, comments=True, noise=0.15, group_gates=True, ports=N
                 cs.append("." + p + ws(rng) + "(" + ("" if e is None else unparse(e, rng, 0, noise)) + ")")
             stm.append(("b", it["type"], it["type"] + ws(rng, True) + it["inst"] + ws(rng) + "(" + ("," + ws(rng)).join(cs) + ")", idx))
     rng.shuffle(stm)
+    bbt = sorted({x[1] for x in stm if x[0] == "b"})
+    if bbt and rng.random() < 0.6:
+        # instances of one cell type next to each other (they may then share a statement)
+        t0 = rng.choice(bbt)
+        same = [x for x in stm if x[0] == "b" and x[1] == t0]
+        if len(same) >= 2:
+            pos = stm.index(same[0])
+            stm = [x for x in stm if x not in same[1:]]
+            pos = stm.index(same[0])
+            stm[pos + 1:pos + 1] = same[1:]
     # several primitive instances of the same type in one statement
     lines = []
     i = 0
@@ -272,6 +284,15 @@ def verilog_text(prog, rng, comments=True, noise=0.15, group_gates=True, ports=N
                 grp.append(stm[i][2])
                 idxs.append(stm[i][3])
             lines.append(t + ws(rng, True) + ("," + ws(rng)).join(grp) + ws(rng) + ";")
+        elif k == "b":
+            # several instances of one cell type in one statement:  ff u0 (...), u1 (...);
+            grp = [s]
+            idxs = [idx]
+            while group_gates and i + 1 < len(stm) and stm[i + 1][0] == "b" and stm[i + 1][1] == t and rng.random() < 0.6:
+                i += 1
+                grp.append(stm[i][2][len(t):].lstrip())
+                idxs.append(stm[i][3])
+            lines.append(("," + ws(rng)).join(grp) + ws(rng) + ";")
         else:
             lines.append(s + ws(rng) + ";")
             idxs = [idx]
@@ -361,6 +382,12 @@ def fast_program(rng, bb=0.3):
             ins = next(t for t in p["bbtypes"] if t["type"] == it["type"])["ins"]
             it = dict(it, conns=[[pn, (("c", rng.choice(["0", "1"])) if (pn in ins and e is not None and rng.random() < 0.25) else e)]
                                  for pn, e in it["conns"]])
+        elif it["k"] == "gate" and it["t"] in ("xor", "xnor") and rng.random() < 0.2:
+            # repeated operands of a parity gate: a net two or three times, the same constant twice
+            extra = rng.choice([[it["ins"][0]], [it["ins"][0], it["ins"][0]], [("c", "1"), ("c", "1")], [("c", "0"), ("c", "0"), it["ins"][-1]]])
+            ins2 = list(it["ins"]) + extra
+            rng.shuffle(ins2)
+            it = dict(it, ins=ins2)
         items.append(it)
     # a few assigns of a net or a constant
     names = [n for n in NAME_POOLS["plain"] if n not in p["inputs"] and n not in p["wires"] and n not in p["outputs"]]
